@@ -1,3 +1,4 @@
 //! Shared pieces of the correspondence harness (one binary per property under src/bin/).
 pub mod rng;
+pub mod runner;
 pub mod sk;
